@@ -51,8 +51,9 @@ def O(name):
 class Kernel:
     """one generated definition group: a source function and the Coq definitions printed from its symbolic result"""
 
-    def __init__(self, name, file, cls, func, bindings, params, outputs, prims=None, variables=(), module_funcs=(), carrier="R"):
+    def __init__(self, name, file, cls, func, bindings, params, outputs, prims=None, variables=(), module_funcs=(), carrier="R", obj_methods=None):
         self.carrier = carrier
+        self.obj_methods = obj_methods or {}
         self.name, self.file, self.cls, self.func = name, file, cls, func
         self.bindings = bindings          # callable () -> dict parameter name -> symbolic value
         self.params = params              # Coq binder text of the generated definitions
@@ -447,6 +448,55 @@ def _offstep_out(res, ex):
             ("cb_done", "bool", term_of(ctx.fields["done"])), ("cb_reward", "Q", term_of(ctx.fields["reward"])), ("cb_key", "kpath", term_of(cb.fields["key"]))]
 
 
+# ------------------------------------------------------------------------------------------------ C04: collect_rollout (scan + post_collect)
+def _method(path_rel, cls, name, self_obj):
+    """the method `name` of class `cls` as found in the source under translation, bound to the symbolic self"""
+    from .kernel import Method
+    fn, _ = find_function(src_root() / path_rel, cls, name)
+    return Method(Closure(fn, {}), self_obj)
+
+
+def _collect_bind():
+    b = _onstep_bind()
+    selfo = Obj({"gamma": R("gamma"), "gae_lambda": R("lam"), "num_steps": Z("(Z.of_nat T)"),
+                 "per_step": Prim(lambda ex, n, a, k: a[0] if len(a) == 1 and not k else fail(n, "per_step form"))}, "algo")
+    scope = {k[1:]: v for k, v in b.items() if k.startswith("@")}
+    for nm in ("step", "post_collect"):
+        m = _method("algorithm/on_policy.py", "AbstractActorCriticOnPolicyAlgorithm", nm, selfo)
+        m.closure.scope = scope
+        selfo.fields[nm] = m
+
+    def on_step(ex, n, args, kwargs):
+        if len(args) != 1 or set(kwargs) != {"key"} or not isinstance(args[0], Obj):
+            fail(n, "on_step call form")
+        c = args[0].fields
+        return Sc("O", f"(cb_step {c['state'].t} {c['done'].t} {c['reward'].t} {kwargs['key'].t})")
+    out = {"self": selfo, "env": b["env"], "policy": b["policy"], "key": K("k"),
+           "step_state": Obj({"env_state": O("es"), "policy_state": O("ps"), "callback_state": O("cbs")}, "step_state"),
+           "callback": Obj({"on_step": Prim(on_step)}, "callback")}
+    out.update({k: v for k, v in b.items() if k.startswith("@")})
+    # the buffer row as it is scanned, and the GAE call at the end (compute_returns_and_advantages is the C03 kernel)
+    out["@RolloutBuffer"] = Prim(lambda ex, n, a, k: Obj(dict(k, compute_returns_and_advantages=Static(None)), "RolloutBuffer") if not a else fail(n, "RolloutBuffer form"))
+    return out
+
+
+def _collect_out(res, ex):
+    if not (isinstance(res, tuple) and len(res) == 2 and isinstance(res[0], Obj)):
+        raise TranslateError("collect_rollout no longer returns (step state, buffer)")
+    st, buf = res
+    if not (isinstance(buf, Obj) and buf.name == "gae_call"):
+        raise TranslateError("the returned buffer is not buffer.compute_returns_and_advantages(...) of the scanned rows")
+    rows = buf.fields["rows"]
+    outs = [("env_state", "S", term_of(st.fields["env_state"])), ("policy_state", "PS", term_of(st.fields["policy_state"])),
+            ("last_value", "Q", term_of(buf.fields["last_value"], "R")), ("gae_lambda", "Q", term_of(buf.fields["gae_lambda"], "R")),
+            ("gae_gamma", "Q", term_of(buf.fields["gamma"], "R"))]
+    tys = {"observations": "list O", "actions": "list Q", "rewards": "list Q", "dones": "list bool", "log_probs": "list Q", "values": "list Q",
+           "states": "list PS", "action_masks": "list (option (list bool))"}
+    for f, ty in tys.items():
+        outs.append((f, ty, term_of(rows.fields[f])))
+    return outs
+
+
 def _step_out(res, ex):
     if not (isinstance(res, tuple) and len(res) == 6):
         raise TranslateError("step no longer returns (state, observation, reward, terminal, truncate, info)")
@@ -641,7 +691,12 @@ KERNELS = {
                    "(ph h : R)", lambda res, ex: [("value", "R", term_of(res, "R"))])],
     "C04": [Kernel("onstep", "algorithm/on_policy.py", "AbstractActorCriticOnPolicyAlgorithm", "step", _onstep_bind,
                    "{S PS O CB : Type} (gamma : Q) (E : env S Q O) (P : acpol PS Q O) (es : S) (ps : PS) (cbs : CB) (k : kpath)",
-                   _onstep_out, carrier="Q", prims={"jnp.clip": Prim(_p_clip_space)})],
+                   _onstep_out, carrier="Q", prims={"jnp.clip": Prim(_p_clip_space)}),
+            Kernel("collect", "algorithm/on_policy.py", "AbstractOnPolicyAlgorithm", "collect_rollout", _collect_bind,
+                   "{S PS O CB : Type} (gamma lam : Q) (T : nat) (E : env S Q O) (P : acpol PS Q O) (cb_step : CB -> bool -> Q -> kpath -> CB) (es : S) (ps : PS) (cbs : CB) (k : kpath)",
+                   _collect_out, carrier="Q", prims={"jnp.clip": Prim(_p_clip_space)},
+                   obj_methods={"RolloutBuffer": {"compute_returns_and_advantages": lambda ex, n, recv, a, k: Obj(
+                       {"rows": recv, "last_value": a[0], "gae_lambda": a[1], "gamma": a[2]}, "gae_call") if len(a) == 3 and not k else fail(n, "GAE call form")}})],
     "C05": [Kernel("offstep", "algorithm/off_policy.py", "AbstractOffPolicyAlgorithm", "step", _offstep_bind,
                    "{S PS O CB : Type} (E : env S Q O) (P : acpol PS Q O) (es : S) (ps : PS) (cbs : CB) (k : kpath)",
                    _offstep_out, carrier="Q", prims={"jnp.clip": Prim(_p_clip_space)})],
@@ -741,6 +796,7 @@ def translate(pid):
                 raise err
             set_carrier(k.carrier)
             ex = Executor(prims=k.prims)
+            ex.obj_methods = k.obj_methods
             scope = {}
             if k.module_funcs:
                 tree = ast.parse(path.read_text())
